@@ -184,3 +184,21 @@ Proof. vm_compute. reflexivity. Qed.
 Example ex_scope_stack :
   resolve_raw 0 [] (tokens_of ex_scope_raw) = tokens_of (scoped_tree [] ex_scope_raw).
 Proof. vm_compute. reflexivity. Qed.
+
+(* a WebSocket client session: the peer's header is in the framing name space,
+   stanzas still go out in jabber:client, without from *)
+Definition ex_ws : stream_params :=
+  mkparams so_ns_client (str "urn:ietf:params:xml:ns:xmpp-framing") true (str "me@example.net").
+
+Example ex_ws_completion :
+  spec_top (cfg_of ex_ws) (str "ID") (Elem (nm "" "message") [] []) =
+  Elem (nm "jabber:client" "message") [at_ "" "id" "ID"] [].
+Proof. vm_compute. reflexivity. Qed.
+
+(* a server-to-server stream whose peer answered with jabber:client *)
+Definition ex_mixed : stream_params := mkparams so_ns_server so_ns_client false (str "example.net").
+
+Example ex_mixed_completion :
+  spec_top (cfg_of ex_mixed) (str "ID") (Elem (nm "" "presence") [] []) =
+  Elem (nm "jabber:server" "presence") [at_ "" "from" "example.net"; at_ "" "id" "ID"] [].
+Proof. vm_compute. reflexivity. Qed.
